@@ -57,6 +57,40 @@ fn main() {
             let code = driver::run_replay(&eng, prop, &PathBuf::from(&args[3]));
             std::process::exit(code);
         }
+        "mirirun" => {
+            // many generated histories in ONE process (meant to run under Miri: UB / leak oracle)
+            let prop = &args[2];
+            let n: u64 = args[3].parse().unwrap();
+            let seed: u64 = args[4].parse().unwrap();
+            std::env::set_var("VERIF_CASE_TIER", "quick");
+            let mut x = seed.wrapping_mul(0x9E3779B97F4A7C15) | 1;
+            let mut rnd = move || {
+                x ^= x << 13;
+                x ^= x >> 7;
+                x ^= x << 17;
+                x
+            };
+            let mut nontrivial = 0;
+            for i in 0..n {
+                let len = 4 + (rnd() % 36) as usize;
+                let cfg = [rnd() as u8, rnd() as u8, rnd() as u8];
+                let ops: Vec<[u8; 3]> = (0..len).map(|_| [rnd() as u8, rnd() as u8, rnd() as u8]).collect();
+                let case = SCase { cfg, ops };
+                println!("CASE {} {}", i, case.to_hex());
+                let o = run_case(prop, &case, &caps_for("quick"));
+                if o.nontrivial.is_some() {
+                    nontrivial += 1;
+                }
+                if !o.viols.is_empty() {
+                    for v in o.viols.iter() {
+                        println!("VIOL {} [{}]: {}", v.0, v.1, v.2);
+                    }
+                    println!("ORACLE-VIOLATION case={}", case.to_hex());
+                    std::process::exit(1);
+                }
+            }
+            println!("MIRIRUN-OK cases={} nontrivial={}", n, nontrivial);
+        }
         "hex" => {
             let prop = &args[2];
             let case = SCase::from_hex(&args[3]);
